@@ -12,15 +12,21 @@ func (k Keeper) GarbageCollectUnbonded(ctx context.Context) error {
 	sdkCtx := sdk.UnwrapSDKContext(ctx)
 
 	err := k.IterateCompletedUnbondings(ctx, sdkCtx.BlockTime(), func(id uint64, value types.Unbonding) (stop bool, err error) {
-		err = k.WithdrawUnbonded(ctx, value)
+		// a payout that cannot be made (for example to a recipient the bank refuses to credit) must not stop the
+		// chain: its partial effects are dropped, it is logged and tried again in a later block
+		cacheCtx, write := sdkCtx.CacheContext()
+		err = k.WithdrawUnbonded(cacheCtx, value)
 		if err != nil {
-			return true, err
+			k.Logger.Error("failed to withdraw unbonded", "id", id, "address", value.Address, "error", err)
+			return false, nil
 		}
 
-		err = k.RemoveUnbonding(ctx, id)
+		err = k.RemoveUnbonding(cacheCtx, id)
 		if err != nil {
-			return true, err
+			k.Logger.Error("failed to remove unbonding", "id", id, "error", err)
+			return false, nil
 		}
+		write()
 
 		return false, nil
 	})
